@@ -293,4 +293,42 @@ def _c_dispatchers(ck):
             any(isinstance(n, ast.Assign) and dotted(n.targets[0]) == "self.split_dis" and "kwargs" in norm(n.value) and "set(" not in norm(n.value) and "list(" not in norm(n.value)
                 for n in walk_body(dinit))
         ck.ob("R6", "disasmEngine.__init__:keeps-reference", keeps, ab.where(dinit), "the disassembler copies the split collection it is given")
+        # ... and never lets go of it: a method of the engine that rebinds one of its option attributes restores it on every exit (the
+        # temporarily changed options of dis_instr), and the shared split collection in particular is the same object afterwards
+        for q, f in sorted(ab.funcs.items()):
+            if not q.startswith("disasmEngine.") or q.count(".") != 1 or q == "disasmEngine.__init__":
+                continue
+            assigned = {}
+            for n in walk_body(f):
+                if isinstance(n, ast.Assign):
+                    for t in n.targets:
+                        d = dotted(t)
+                        if d and d.startswith("self.") and d.count(".") == 1:
+                            assigned.setdefault(d[5:], n)
+            if not assigned:
+                continue
+            restored = set()
+            for tr in [n for n in walk_body(f) if isinstance(n, ast.Try) and n.finalbody]:
+                for n in ast.walk(ast.Module(body=tr.finalbody, type_ignores=[])):
+                    if isinstance(n, ast.Assign):
+                        for t in n.targets:
+                            d = dotted(t)
+                            if d and d.startswith("self.") and isinstance(n.value, ast.Name):
+                                restored.add(d[5:])
+                    if isinstance(n, ast.Call) and dotted(n.func) == "self.__dict__.update" and n.args and isinstance(n.args[0], ast.Name):
+                        # saved = dict((name, getattr(self, name)) for name in (<literal names>))  /  {name: getattr(self, name) for ...}
+                        for a_ in walk_body(f):
+                            if isinstance(a_, ast.Assign) and isinstance(a_.targets[0], ast.Name) and a_.targets[0].id == n.args[0].id:
+                                for g_ in ast.walk(a_.value):
+                                    if isinstance(g_, ast.comprehension) and isinstance(g_.iter, (ast.Tuple, ast.List, ast.Set)):
+                                        restored.update(e.value for e in g_.iter.elts if isinstance(e, ast.Constant) and isinstance(e.value, str))
+                                if isinstance(a_.value, ast.Dict):
+                                    restored.update(k.value for k in a_.value.keys if isinstance(k, ast.Constant))
+            temp = sorted(k for k in assigned if k in ("lines_wd", "dont_dis", "split_dis", "follow_call", "dontdis_retcall", "blocs_wd", "dis_block_callback",
+                                                       "dont_dis_nulstart_bloc", "dont_dis_retcall_funcs") )
+            lost = [k for k in temp if k not in restored]
+            ck.ob("R6", "%s:options-restored" % q, not lost, ab.where(assigned[lost[0]] if lost else f),
+                  "%s rebinds the engine option(s) %s and does not restore %s on exit: %s"
+                  % (q, temp, lost, "the split collection shared with the translator is replaced, so breakpoint addresses added or removed later never "
+                     "reach the disassembler" if "split_dis" in lost else "later disassembly runs with the temporary value"))
 
